@@ -1,6 +1,6 @@
-# src/dt-io.c (C10): needle search over input lines, bounded
-TU('dt-io', 'src/dt-io.c', SRC_CFLAGS, pre=[], post=['contracts/dt-io.harness.h'])
-G('io.dt_io_find_strpdt2.mem', 'dt-io', 'h_find_strpdt2', ['C10'], body='\th_find_strpdt2();', direct=True, native=False, reach=False, must=['MEMSAFE'], unwind=8, timeout=800,
-  flags=['--no-malloc-may-fail'],
-  bounded=dict(bound='lines of <= 4 bytes (+NUL), <= 2 needle characters with arbitrary payload offsets/flags, all loops unwound 8 times with unwinding assertions',
-               why='three nested pointer loops over two symbolic buffers; loop contracts over pointer ranges did not attach in CBMC 6.11'))
+# src/dt-io.c (C13): duration parser state between lines, bounded in the string length
+TU('dt-io', 'src/dt-io.c', SRC_CFLAGS, pre=[], post=['contracts/dt-io.contracts.h'])
+G('io.dt_io_strpdtdur.state', 'dt-io', 'dt_io_strpdtdur', ['C13', 'C10'], body='\tstruct __strpdtdur_st_s stv; char s[DTIO_STR_MAX + 1]; unsigned k; _Bool cont;\n\t__CPROVER_assume(k <= DTIO_STR_MAX);\n\ts[DTIO_STR_MAX] = 0; stv.cont = cont ? s + k : NULL;\n\tdt_io_strpdtdur(&stv, s);',
+  replace=['dt_strpdtdur', 'dt_neg_dtdur', 'dt_dtdur_neg_p', '__add_dur'], native=False, unwind=10, timeout=600, solvers=['cadical'],
+  bounded=dict(bound='strings of <= 6 bytes (+NUL); the sign/prefix loop is unwound 10 times with an unwinding assertion',
+               why='a loop contract over the prefix-skipping pointer loop (switch with continue/break inside while(1)) did not attach in CBMC 6.11'))
